@@ -215,6 +215,71 @@ func (n *nativeRunner) run(pkg string, cases []nativeCase, extraEnv ...string) (
 	return outs, nil
 }
 
+var straceRe = regexp.MustCompile(`^\d+\s+`)
+
+// strace runs one native case under strace and returns the normalised
+// file/network/process system calls it made.
+func (n *nativeRunner) strace(pkg string, c nativeCase) ([]string, error) {
+	bin, err := n.bin(pkg)
+	if err != nil {
+		return nil, err
+	}
+	cf := filepath.Join(n.scratch, "st_cases.jsonl")
+	of := filepath.Join(n.scratch, "st_out.jsonl")
+	sf := filepath.Join(n.scratch, "strace.txt")
+	b, _ := json.Marshal(c)
+	os.WriteFile(cf, append(b, '\n'), 0644)
+	os.Remove(sf)
+	cmd := exec.Command("strace", "-f", "-qq", "-e",
+		"trace=openat,open,creat,unlink,unlinkat,rename,renameat,renameat2,mkdir,mkdirat,rmdir,socket,connect,bind,execve,execveat,truncate,chmod,fchmodat,symlink,symlinkat,link,linkat",
+		"-o", sf, bin, "-test.run", "^TestZZReplay$")
+	cmd.Dir = filepath.Join(repoDir, pkg)
+	cmd.Env = append(goEnv(), "VERIF_CASES="+cf, "VERIF_OUT="+of)
+	if out, err := cmd.CombinedOutput(); err != nil {
+		_ = out // the harness itself may fail; the trace is what matters
+	}
+	raw, err := os.ReadFile(sf)
+	if err != nil {
+		return nil, err
+	}
+	var calls []string
+	for _, l := range strings.Split(string(raw), "\n") {
+		l = straceRe.ReplaceAllString(l, "")
+		if l == "" || strings.Contains(l, "ENOENT") && strings.Contains(l, "/etc/ld.so") {
+			continue
+		}
+		// drop the result value and addresses
+		if i := strings.LastIndex(l, " = "); i > 0 {
+			l = l[:i]
+		}
+		l = regexp.MustCompile(`0x[0-9a-f]+`).ReplaceAllString(l, "PTR")
+		calls = append(calls, l)
+	}
+	return calls, nil
+}
+
+// confinedDiff lists system calls of the case that the baseline run did not
+// make and that are not among the effects C10 allows (standard output,
+// environment, clock, the time-zone database).
+func confinedDiff(cas, base []string) []string {
+	seen := map[string]bool{}
+	for _, b := range base {
+		seen[b] = true
+	}
+	var out []string
+	for _, c := range cas {
+		if seen[c] {
+			continue
+		}
+		if strings.Contains(c, "zoneinfo") || strings.Contains(c, "/etc/localtime") || strings.Contains(c, "st_cases.jsonl") || strings.Contains(c, "st_out.jsonl") ||
+			strings.HasPrefix(c, "openat(AT_FDCWD, \"/proc/") || strings.HasPrefix(c, "openat(AT_FDCWD, \"/sys/") {
+			continue
+		}
+		out = append(out, c)
+	}
+	return out
+}
+
 func tail(s string, n int) string {
 	if len(s) > n {
 		return s[len(s)-n:]
@@ -313,11 +378,16 @@ func cmdCheck(args []string) {
 		byPkg[h.Pkg] = append(byPkg[h.Pkg], h)
 	}
 	replayN := 0
+	var staticForbidden []string
+	reachedForbidden := map[string]bool{}
 	os.MkdirAll(filepath.Join(verifDir, "replay"), 0755)
 	for _, pkg := range pkgs {
 		ld, err := symex.Load(symex.LoadConfig{RepoDir: repoDir, HarnessDir: harnessDir, Module: module, Pkg: pkg, Tags: "verif"})
 		if err != nil {
 			fatal(3, "loading %s/%s: %v", repoDir, pkg, err)
+		}
+		if *prop == "C10" {
+			staticForbidden = append(staticForbidden, ld.ForbiddenSites()...)
 		}
 		for _, h := range byPkg[pkg] {
 			th := time.Now()
@@ -365,7 +435,7 @@ func cmdCheck(args []string) {
 					}
 				}
 				for _, f := range r.Forbidden {
-					cr.inconclusive = append(cr.inconclusive, h.Name+": forbidden primitive reached: "+f)
+					reachedForbidden[f] = true
 				}
 			}
 			for w, n := range unsW {
@@ -412,6 +482,14 @@ func cmdCheck(args []string) {
 					cr.internal = append(cr.internal, fmt.Sprintf("%s: native twin rejected a path model (assume failed) %v", h.Name, r.Model))
 					continue
 				}
+				// C19/C11 twins are nondeterministic natively (map order, the
+				// scheduler): a native failure on a path the engine explored
+				// under one particular order is no engine/native mismatch
+				// (the same failure is reported through its own path).
+				nondetTwin := *prop == "C19" || *prop == "C11"
+				if nondetTwin && len(o.Fails) > 0 {
+					continue
+				}
 				if strings.Join(o.Obs, "\n") != strings.Join(r.ObsPred, "\n") || (len(o.Fails) > 0 && !*canary) {
 					cr.internal = append(cr.internal, fmt.Sprintf("%s: engine/native mismatch on path %v\n  inputs   %v\n  predicted %v\n  native    %v fails=%v panic=%q", h.Name, r.Decis, r.Model, r.ObsPred, o.Obs, o.Fails, o.Panic))
 					continue
@@ -443,6 +521,27 @@ func cmdCheck(args []string) {
 						one = []nativeOutcome{{Harness: h.Name, Fails: []string{cands[len(couts)].Site, "harness.panic"}, Panic: "native process died"}}
 					}
 					couts = append(couts, one[0])
+				}
+			}
+			// C10: a path that reached a file/network/process primitive is
+			// confirmed by running the native twin under strace and diffing
+			// its system calls against a benign baseline case.
+			var baseCalls []string
+			for k, c := range cands {
+				if c.Site != "C10.forbidden" || k >= len(couts) {
+					continue
+				}
+				if baseCalls == nil {
+					baseCalls, _ = nat.strace(pkg, nativeCase{Harness: h.Name, Model: map[string]string{}})
+				}
+				calls, serr := nat.strace(pkg, nativeCase{Harness: h.Name, Model: c.Model})
+				if serr != nil {
+					cr.inconclusive = append(cr.inconclusive, fmt.Sprintf("%s: %s: cannot confirm with strace: %v", h.Name, c.PanicMsg, serr))
+					continue
+				}
+				if extra := confinedDiff(calls, baseCalls); len(extra) > 0 {
+					couts[k].Fails = append(couts[k].Fails, "C10.forbidden")
+					couts[k].Obs = append(couts[k].Obs, "strace: "+strings.Join(extra, " ; "))
 				}
 			}
 			seenKnown := map[string]bool{}
@@ -523,6 +622,15 @@ func cmdCheck(args []string) {
 		}
 	}
 
+	// C10 completeness guard: every call site of a file/network/process
+	// primitive in the library must have been reached by some path (and then
+	// shows up as a counterexample) - otherwise the bound is too small to say.
+	for _, site := range uniq(staticForbidden) {
+		callee := strings.SplitN(site, " called from ", 2)[0]
+		if !reachedForbidden[callee] {
+			cr.inconclusive = append(cr.inconclusive, "forbidden call site not reached within bounds: "+site)
+		}
+	}
 	// ---- verdict
 	for _, l := range cr.known {
 		fmt.Println(l)
